@@ -4,6 +4,7 @@ import math
 import os
 import random
 import time
+import threading
 import traceback
 
 from irsx import dag, poly, jet, engine, symex, diff as dd
@@ -45,7 +46,7 @@ def write_replay(oid, payload):
 
 
 def prove_pairs(res, oid, pairs, hyp=None, sampler=None, pv=None, call=None, backend="nf", subst=None,
-                seed=0, rtol=1e-6, expect_fail=False, signvars=None, prec="d", inv_atoms=False, coef_tol=None, cut=None):
+                seed=0, rtol=1e-6, expect_fail=False, signvars=None, prec="d", inv_atoms=False, coef_tol=None, cut=None, budget=None):
     """Discharge `lhs == rhs` for every (entry, lhs, rhs) in pairs with the nf back end.
     On failure look for a numeric witness (inputs from `sampler` restricted to the path of `pv`) and replay it
     natively through `call` = (extract, fn, bufs).  One record per entry."""
@@ -76,6 +77,31 @@ def prove_pairs(res, oid, pairs, hyp=None, sampler=None, pv=None, call=None, bac
             allok = allok and ok
         return allok
     cut_failed = False
+    timed_out = False
+    import signal
+
+    class _NfTimeout(Exception):
+        pass
+
+    def _alarm(*_a):
+        raise _NfTimeout()
+    if budget is None:
+        budget = float(os.environ.get("VERIF_NF_BUDGET", "1200"))
+    if pv is not None and getattr(pv, "samples", None) and not expect_fail:
+        # a numeric difference at a sample of the path: the goal is most likely false -- spend little time on the normal form
+        try:
+            e_ = dict(pv.samples[0])
+            for n_ in dag.leaves([x for _, l, r in pairs for x in (l, r)]):
+                e_.setdefault(n_.args[0], 0.37)
+            v_ = dag.eval_ieee([x for _, l, r in pairs for x in (l, r)], e_)
+            if any(abs(v_[l.id] - v_[r.id]) > 1e-6 * (1 + abs(v_[l.id]) + abs(v_[r.id])) for _, l, r in pairs):
+                budget = min(budget, 5.0)
+        except Exception:
+            pass
+    use_alarm = budget and threading.current_thread() is threading.main_thread()
+    if use_alarm:
+        old_h = signal.signal(signal.SIGALRM, _alarm)
+        signal.setitimer(signal.ITIMER_REAL, budget)
     try:
         if cut:
             # generalised goal: sub-DAGs (libm calls, divisions) shared by both sides become fresh variables (sound, see diff.cut_shared)
@@ -85,10 +111,20 @@ def prove_pairs(res, oid, pairs, hyp=None, sampler=None, pv=None, call=None, bac
             cut_failed = any(not ok for _, ok, _ in out)
         else:
             ctx, out = engine.nf_prove(pairs, hyp, subst, inv_atoms=inv_atoms, coef_tol=coef_tol)
+    except _NfTimeout:
+        # the normal form did not finish within the budget: undecided unless a differing input is found below
+        timed_out = True
+        ctx = poly.Ctx()
+        out = [(e_, False, "") for e_, _, _ in pairs]
+        cut_failed = True
     except (poly.NotPolynomial, ZeroDivisionError, NotImplementedError) as e:
         for entry, _, _ in pairs:
             res.add("%s/%s" % (oid, entry), "error", backend, 0.0, "nf: %r" % (e,))
         return False
+    finally:
+        if use_alarm:
+            signal.setitimer(signal.ITIMER_REAL, 0)
+            signal.signal(signal.SIGALRM, old_h)
     dt = (time.time() - t0) / max(1, len(pairs))
     res.assumptions |= set(ctx.assumptions)
     allok = True
@@ -112,6 +148,19 @@ def prove_pairs(res, oid, pairs, hyp=None, sampler=None, pv=None, call=None, bac
                 for nm in _n:
                     if nm not in e:
                         e[nm] = rng.uniform(-2, 2)
+                return e
+        if sampler is not None and not expect_fail and pv is not None and getattr(pv, "samples", None):
+            # concolic paths: the samples that discovered the path satisfy its condition by construction -- try them first
+            _it = iter([dict(e_) for e_ in pv.samples])
+            _b2 = sampler
+
+            def sampler(rng, _b=_b2, _it=_it):
+                try:
+                    e = next(_it)
+                except StopIteration:
+                    return _b(rng)
+                for k_, v_ in _b(rng).items():
+                    e.setdefault(k_, v_)
                 return e
         if sampler is not None and not expect_fail:
             pc = (lambda env: engine.path_holds(pv, env)) if pv is not None else None
@@ -140,7 +189,8 @@ def prove_pairs(res, oid, pairs, hyp=None, sampler=None, pv=None, call=None, bac
                     wit = engine.numeric_witness(failed, pinned, seed=seed, rtol=1e-13, pathcond=pc)
         if cut_failed and wit is None:
             for entry, l, r in failed:
-                res.add("%s/%s" % (oid, entry), "error", backend, dt, "undecided: the generalised (cut) goal is not an identity and no differing input was found")
+                res.add("%s/%s" % (oid, entry), "error", backend, dt, ("undecided: the normal form did not finish within %ss" % budget if timed_out else
+                                                                         "undecided: the generalised (cut) goal is not an identity") + " and no differing input was found")
             return False
         for entry, l, r in failed:
             if expect_fail:
